@@ -77,9 +77,15 @@ impl<Key> AdmissionPolicy<Key>
         let access_frequency = self.access_frequency.clone();
 
         thread::spawn(move || {
+            #[cfg(feature = "cached_verif")]
+            let _verif_registration = crate::cache::verif::register("consumer");
+            #[cfg(feature = "cached_verif")]
+            crate::cache::verif::point("consumer.recv");
             while let Ok(event) = receiver.recv() {
                 match event {
                     BufferEvent::Full(key_hashes) => {
+                        #[cfg(feature = "cached_verif")]
+                        crate::cache::verif::point("af.increment");
                         { access_frequency.write().increment_access(key_hashes); }
                     }
                     BufferEvent::Shutdown => {
@@ -88,16 +94,22 @@ impl<Key> AdmissionPolicy<Key>
                         break;
                     }
                 }
+                #[cfg(feature = "cached_verif")]
+                crate::cache::verif::point("consumer.flag");
                 if !keep_running.load(Ordering::Acquire) {
                     info!("Shutting down AdmissionPolicy");
                     drop(receiver);
                     break;
                 }
+                #[cfg(feature = "cached_verif")]
+                crate::cache::verif::point("consumer.recv");
             }
         });
     }
 
     pub(crate) fn estimate(&self, key_hash: KeyHash) -> FrequencyEstimate {
+        #[cfg(feature = "cached_verif")]
+        crate::cache::verif::point("af.estimate");
         return self.access_frequency.read().estimate(key_hash);
     }
 
@@ -151,13 +163,21 @@ impl<Key> AdmissionPolicy<Key>
     }
 
     pub(crate) fn shutdown(&self) {
+        #[cfg(feature = "cached_verif")]
+        crate::cache::verif::point_need("buf.send_shutdown", || "bufq.room".to_string());
         let _ = self.sender.clone().send(BufferEvent::Shutdown);
+        #[cfg(feature = "cached_verif")]
+        crate::cache::verif::point("shutdown.consumer_flag");
         self.keep_running.store(false, Ordering::Release);
     }
 
     pub(crate) fn clear(&self) {
         self.cache_weight.clear();
+        #[cfg(feature = "cached_verif")]
+        crate::cache::verif::point("shutdown.af_clear");
         self.access_frequency.write().clear();
+        #[cfg(feature = "cached_verif")]
+        crate::cache::verif::point("shutdown.stats_clear");
         self.stats_counter.clear();
     }
 
@@ -185,6 +205,8 @@ impl<Key> AdmissionPolicy<Key>
         let frequency_counter = |key_hash| self.estimate(key_hash);
 
         let incoming_key_access_frequency = self.estimate(key_description.hash);
+        #[cfg(feature = "cached_verif")]
+        crate::cache::verif::tap(|| format!("adm.incoming {} {} {}", key_description.id, key_description.weight, incoming_key_access_frequency));
         let mut space_available = space_left;
 
         let mut sample = self.cache_weight.sample(EVICTION_SAMPLE_SIZE, frequency_counter);
@@ -241,6 +263,34 @@ impl<Key> BufferConsumer for AdmissionPolicy<Key>
                 }
             }
         }
+    }
+}
+
+#[cfg(feature = "cached_verif")]
+impl<Key> AdmissionPolicy<Key>
+    where Key: Hash + Eq + Send + Sync + Clone + 'static, {
+    pub(crate) fn verif_key_weights(&self) -> Vec<(KeyId, Key, KeyHash, Weight)> {
+        self.cache_weight.verif_key_weights()
+    }
+
+    pub(crate) fn verif_weight_used(&self) -> Weight {
+        *self.cache_weight.verif_weight_used_lock().read()
+    }
+
+    pub(crate) fn verif_buffer_queue_len(&self) -> usize {
+        self.sender.len()
+    }
+
+    pub(crate) fn verif_sketch(&self) -> crate::cache::lfu::tiny_lfu::VerifSketch {
+        self.access_frequency.read().verif_sketch()
+    }
+
+    pub(crate) fn verif_record_access(&self, key_hashes: Vec<KeyHash>) {
+        self.access_frequency.write().increment_access(key_hashes);
+    }
+
+    pub(crate) fn verif_constants() -> (usize, usize) {
+        (EVICTION_SAMPLE_SIZE, CHANNEL_CAPACITY)
     }
 }
 
